@@ -152,6 +152,8 @@ func vxH05Step(kind int, withAuth bool) {
 	case vxRefuse:
 		vxAssert(rc.Type == Rerror, "refused-with-error")
 		vxAssert(nops == 0, "refused-request-not-forwarded")
+		// a refused request has no effect on the fid it named
+		vxAssert(vxAll(fid.opened == opened, fid.Type == ftype), "refused-request-leaves-fid-state")
 		vxReach("refuse")
 	case vxForward:
 		vxAssert(nops == 1, "forwarded-exactly-once")
